@@ -200,7 +200,7 @@ inductive ZeroForm where
       divisors, and a Go panic on anything that is not a go/constant number -/
   | untypedOnly
   /-- not valid or not a number: false; a go/constant value: `Sign == 0`; otherwise `!CanSet() && IsZero()`
-      (since 03fb34b / 4bcc5b4) -/
+      (since 03fb34b / 6f2f5cf) -/
   | anyConst
   | other
   deriving DecidableEq, Repr, Inhabited
@@ -209,44 +209,44 @@ inductive ZeroForm where
     (interp/cfg.go post-order cases, interp/typecheck.go, interp/type.go); each is read from the source text, the
     model branches on it, so a reverted repair changes what the driver computes -/
 structure CheckFacts where
-  /-- cfg.go, binaryExpr case: `if err = check.constExpr(n); err != nil { break }` stands before `constOp[n.action](n)` (5e2cd1c) -/
+  /-- cfg.go, binaryExpr case: `if err = check.constExpr(n); err != nil { break }` stands before `constOp[n.action](n)` (31bf1d3) -/
   constExprBin : Bool
   /-- the same in the unaryExpr case -/
   constExprUn : Bool
-  /-- cfg.go, binaryExpr case: `if err = check.constOverflow(n); …` stands after the fold (b425d98) -/
+  /-- cfg.go, binaryExpr case: `if err = check.constOverflow(n); …` stands after the fold (eeab028) -/
   overflowBin : Bool
   /-- the same in the unaryExpr case -/
   overflowUn : Bool
   /-- typecheck.go constOverflow: `constant.BitLen(c) > N`; `none` when the function is not of that shape -/
   intBitsMax : Option Nat
-  /-- typecheck.go shift: `c0.rval.IsValid() && c1.rval.IsValid() && vUint(c1.rval) > N` is an error (b425d98) -/
+  /-- typecheck.go shift: `c0.rval.IsValid() && c1.rval.IsValid() && vUint(c1.rval) > N` is an error (eeab028) -/
   shiftCountMax : Option Nat
   /-- typecheck.go constExpr: the count handed to constant.Shift is `min(vUint(c1.rval), N)` -/
   shiftClamp : Nat
   /-- typecheck.go constExpr: `case tok == token.QUO && isInt(t): x = constant.BinaryOp(x, token.QUO_ASSIGN, y)` is there -/
   quoIntExact : Bool
-  /-- typecheck.go binaryExpr returns before the operand conversions for a quotient of two constants (removed by 4bcc5b4) -/
+  /-- typecheck.go binaryExpr returns before the operand conversions for a quotient of two constants (removed by 6f2f5cf) -/
   quoEarlyReturn : Bool
   zeroForm : ZeroForm
-  /-- cfg.go, binaryExpr case: `if n.typ != nil && isUntypedConst(c0) && (isUntypedConst(c1) || isShiftNode(n) && c1.rval.IsValid()) { n.typ = c0.typ }` (7973ebe) -/
+  /-- cfg.go, binaryExpr case: `if n.typ != nil && isUntypedConst(c0) && (isUntypedConst(c1) || isShiftNode(n) && c1.rval.IsValid()) { n.typ = c0.typ }` (3f5ccd5) -/
   untypedStays : Bool
-  /-- typecheck.go shift accepts a constant count of floating-point type with a non-negative integral value (04c8232) -/
+  /-- typecheck.go shift accepts a constant count of floating-point type with a non-negative integral value (ce5712d) -/
   floatShiftCount : Bool
-  /-- typecheck.go conversion: a typed constant operand converted to a numeric type goes through check.representable (7402c20) -/
+  /-- typecheck.go conversion: a typed constant operand converted to a numeric type goes through check.representable (e6c1f4a) -/
   convTypedChecked : Bool
   /-- typecheck.go representable reads the operand with `constValue(n.rval)` (reflect values included) instead of
-      asserting a go/constant value (7402c20) -/
+      asserting a go/constant value (e6c1f4a) -/
   reprConstValue : Bool
   /-- typecheck.go convertUntyped refuses bool ↔ non-bool (`isBoolean(ntyp) != isBoolean(ttyp)`, 385eb77) -/
   boolConvChecked : Bool
-  /-- cfg.go landExpr and lorExpr cases fold two constant operands (d04f498) -/
+  /-- cfg.go landExpr and lorExpr cases fold two constant operands (b3f92e0) -/
   foldLogical : Bool
   /-- cfg.go pre-order: the type of a comparison / logical parent is not copied onto its operands
-      (`if !isBoolAction(n.anc)`, d04f498) -/
+      (`if !isBoolAction(n.anc)`, b3f92e0) -/
   cmpNotPushed : Bool
-  /-- cfg.go, builtin len: `isInConstOrTypeDecl(n) || isConstString(n.child[1])` (3d1d9b9) -/
+  /-- cfg.go, builtin len: `isInConstOrTypeDecl(n) || isConstString(n.child[1])` (a2a892e) -/
   lenConstString : Bool
-  /-- type.go nodeType2, basicLit: an Int constant whose literal starts with `'` is typed untyped rune (ebd86cd) -/
+  /-- type.go nodeType2, basicLit: an Int constant whose literal starts with `'` is typed untyped rune (b080dc4) -/
   runeLitKeepsType : Bool
   /-- typecheck.go convertConst, `case reflect.Float32:` stands alone and takes `constant.Float32Val(constant.ToFloat(c))`:
       the float32 nearest to the exact constant (round to nearest even, one rounding). `false`: the case shares the
